@@ -30,7 +30,7 @@ def make_recording(src, seed):
     chdir = os.path.join(src, "chA")
     mdir = os.path.join(chdir, "metadata")
     os.makedirs(mdir)
-    cfg = rf.Cfg(n=N, d=D, fc=500, sc=2, start=md.first_of_ts(1394368230, N, D), cont=False)
+    cfg = rf.Cfg(n=N, d=D, fc=500, sc=2, start=md.first_of_ts(1394333998, N, D), cont=False)
     w = rf.open_writer(drf, chdir, cfg)
     w.rf_write(rf.make_values(cfg, seed, cfg["start"], 5))  # three files of 500 ms: .000, .500, .000
     w.close()
@@ -187,6 +187,11 @@ def run_job(job):
                     dest = os.path.join(root, "dest%d" % run_no)
                     shutil.copytree(master, src)
                     os.makedirs(dest)
+                    if run_no % 3 == 0:
+                        # the monitored directory is reached through a symbolic link (e.g. /data -> /mnt/disk1/data)
+                        real_src = src
+                        src = os.path.join(root, "link%d" % run_no)
+                        os.symlink(real_src, src)
                     filecmp.clear_cache()
                     case = {"method": method, "windowed": windowed, "history": hist, "handler_order": list(order), "crash_at": cp, "seed": seed,
                             "mode": crash if crash else None}
@@ -272,6 +277,9 @@ def run_job(job):
                     part["states"].add(core.canon((method, tuple(sorted(os.listdir(dest))), nops, crashed)))
                     if not part["samples"]:
                         part["samples"].append({"method": method, "history": hist, "handler_order": list(order), "fs_operations": nops})
+                    if os.path.islink(src):
+                        os.unlink(src)
+                        src = os.path.join(root, "src%d" % run_no)
                     core.rm(src)
                     core.rm(dest)
     finally:
@@ -327,8 +335,8 @@ def end_oracle(method, src, dest, files, selected, master_sha, hist, rf_files, m
             rd = drf.DigitalRFReader(dest)
             b = rd.get_bounds("chA")
             rm = drf.DigitalRFReader(os.path.dirname(src) + "/master")
-            got = {k: v.tobytes() for k, v in rd.read(b[0], b[1], "chA").items()}
-            want = {k: v.tobytes() for k, v in rm.read(b[0], b[1], "chA").items()}
+            got = {k: v.tobytes() for k, v in rd.read(b[0], b[1], "chA").items()} if b[0] is not None else {}
+            want = {k: v.tobytes() for k, v in rm.read(b[0], b[1], "chA").items()} if b[0] is not None else {}
             if got != want:
                 errs.append(({"class": "destination_reader_differs"}, "bounds %r" % (b,)))
         except Exception as e:  # noqa: BLE001
@@ -340,7 +348,8 @@ def startup_job(job):
     """DigitalRFMirror.start()'s listing path with the observer never started"""
     from digital_rf import mirror as mirror_mod
 
-    method, ignore_existing = job
+    method, ignore_existing = job[:2]
+    with_start = len(job) > 2 and job[2]
     seed = core.seed()
     part = core.new_part()
     root = core.new_scratch()
@@ -353,7 +362,16 @@ def startup_job(job):
         shutil.copytree(master, src)
         os.makedirs(dest)
         filecmp.clear_cache()
-        mir = mirror_mod.DigitalRFMirror(src, dest, method=method, ignore_existing=ignore_existing)
+        start = None
+        if with_start:
+            # a start time that falls inside an existing metadata file (after its name time): the listing
+            # selects that file as forward-fill file, and so must the mirror
+            import datetime
+
+            md0 = sorted(f for f in files if classify(f) == "md")[-1]
+            tmd = float(os.path.basename(md0).split("@")[1][:-3])
+            start = datetime.datetime.fromtimestamp(tmd + 1.0, tz=datetime.timezone.utc)
+        mir = mirror_mod.DigitalRFMirror(src, dest, method=method, ignore_existing=ignore_existing, starttime=start)
         mir.observer.start = lambda: None
         import contextlib
         import io
@@ -363,16 +381,21 @@ def startup_job(job):
         rf_files = sorted(f for f in files if classify(f) == "rf")
         md_files = sorted(f for f in files if classify(f) == "md")
         selected = set(files) if not ignore_existing else {f for f in files if classify(f) == "prop"}
+        if with_start:
+            import digital_rf as drf
+
+            listed = {os.path.relpath(p, src) for p in drf.lsdrf(src, starttime=start)}
+            selected = {f for f in files if classify(f) == "prop"} | listed
         hist = [("created", f) for f in sorted(selected)]
         errs = end_oracle(method, src, dest, files, selected, master_sha, hist, rf_files if not ignore_existing else [], md_files)
         if ignore_existing:
             errs = [e for e in errs if e[0]["class"] not in ("destination_unreadable",)]
         part["evaluations"] += 1
         part["traces"] += 1
-        part["nontrivial"].add(core.canon(("startup", method, ignore_existing)))
-        part["states"].add(core.canon(("startup", method, ignore_existing)))
+        part["nontrivial"].add(core.canon(("startup", method, ignore_existing, with_start)))
+        part["states"].add(core.canon(("startup", method, ignore_existing, with_start)))
         for key, detail in errs:
-            part["violations"].append(core.Violation(dict(key, startup=True), {"startup": [method, ignore_existing]}, detail))
+            part["violations"].append(core.Violation(dict(key, startup=True), {"startup": [method, ignore_existing, with_start]}, detail))
     finally:
         core.rm(root)
     return part
@@ -441,6 +464,7 @@ def main(tier):
     js = js[rot:] + js[:rot]
     for part in core.pmap(run_job, js, chunksize=1):
         chk.merge(part)
-    for part in core.pmap(startup_job, [(m, ie) for m in ("copy", "link", "move") for ie in (False, True)], chunksize=1):
+    sjobs = [(m, ie) for m in ("copy", "link", "move") for ie in (False, True)] + [(m, False, True) for m in ("copy", "link", "move")]
+    for part in core.pmap(startup_job, sjobs, chunksize=1):
         chk.merge(part)
     return chk.finish()
